@@ -643,6 +643,11 @@ class AgreementMonitor(Monitor):
             # the observer has just taken its snapshot of that peer (loaded when the notification is processed)
             self.snapshot_taken.add((ev['src'], ev['dst']))
             return
+        if ev['k'] == 'pub_dropped':
+            # queued while the peer was seen active, dropped by publish() because it is not any more
+            self.unpublished.setdefault((ev['dst'], ev['src']), set()).add(ev['namespec'])
+            self.count('events_dropped_at_publication')
+            return
         if ev['k'] != 'truth':
             return
         src = w.instances.get(ev['inst'])
